@@ -201,6 +201,7 @@ func (impl Implementation) Dgels(trans blas.Transpose, m, n, nrhs int, a []float
 			if !ok {
 				return false
 			}
+			scllen = m
 		}
 	}
 
